@@ -19,6 +19,16 @@ SECP256K1_G_uncompressed = b"\x04\x79\xBE\x66\x7E\xF9\xDC\xBB\xAC\x55\xA0\x62\x9
 SECP256K1_G_n = 0xFFFFFFFFFFFFFFFFFFFFFFFFFFFFFFFEBAAEDCE6AF48A03BBFD25E8CD0364141
 SECP256K1_G_h = 0x01
 
+# verification hook (off unless BITS_VERIF_CURVE is set): retarget the module to a tiny curve
+# y^2 = x^3 + 7 over F_p given as "p,n,gx,gy" so that /verif can enumerate the whole group
+import os as _os
+
+if _os.environ.get("BITS_VERIF_CURVE"):
+    SECP256K1_P, SECP256K1_N, SECP256K1_Gx, SECP256K1_Gy = (
+        int(_v) for _v in _os.environ["BITS_VERIF_CURVE"].split(",")
+    )
+    SECP256K1_G_n = SECP256K1_N
+
 
 def add_mod_p(
     x: int,
